@@ -10,7 +10,11 @@
 (*   success : the coefficients of the amount cancel, the fee leaves       *)
 (*             exactly one account once (it is collected for the producer) *)
 (* and C04: an unauthorised transaction is rejected.                       *)
-(* {"ev":"Tx","kind":..,"from":..,"payer":..,"auth":b,"class":..,         *)
+(* ("from" is the sender ACCOUNT of the transaction, which may be the name  *)
+(* n1; "sender" and "payer" are the accounts it is executed for / charged:  *)
+(* a name sender stands for the address the name had at block start)        *)
+(* {"ev":"Tx","kind":..,"from":..,"sender":..,"payer":..,"auth":b,         *)
+(*  "class":..,                                                            *)
 (*  "shape":[{who,a,f}],                                                   *)
 (*  "feepos":b,"amtpos":b,"included":b}                                    *)
 (***************************************************************************)
